@@ -40,7 +40,7 @@ ties = {
  'C12': 'c12.rs: line, status, ops, pairs, accept, reject, seq, ready, odd, routed, client',
  'C13': 'c13.rs: real Server over duplex, paused time, scripts of offers/calls/phases/signal/age, racy variants',
  'C14': 'c14.rs: unit (hooked Reconnect), sess (tower Buffer), e2e/e2n/e2d/e2x (Endpoint + scripted connector + real servers; deadlines, in-flight death, concurrent pairs, limit layers, failure causes), cls (Status::from_error on error chains), net (Endpoint::connect / connect_lazy over loopback TCP and UDS)',
- 'C15': 'c15.rs: tls (486-matrix on TCP and duplex, second realisations, unusable CA bundles, random builder sequences, multi-client), srvcfg',
+ 'C15': 'c15.rs: tls (486-matrix on TCP and duplex, second realisations, unusable CA bundles, random builder sequences, multi-client, one config value / derived configs / endpoint clones across several endpoints), tlsf (side builds with root stores), srvcfg',
  'C16': 'c16.rs: resp, req, call (whole request seen by the inner service and whole response; 12 methods × 5 versions × 16 content-types × 9 accepts); chunks to 100 000 B, trailer blocks > 64 KiB',
  'C17': 'c17.rs: cl, creq (every truncation, every chunking of small bodies), st (real client::Grpc over the client layer); executor with waker discipline',
  'C18': 'c18.rs: seq (exhaustive to length 6/8), park (tasks parked in stream.message().await, woken by set/clear), conc incl. first-registration races (8-worker runtime + linearizability search in Lean)',
